@@ -661,15 +661,16 @@ class SortedLimiter(Limiter):
         top_n = asc[:self.n_select]
         bottom_n = desc[:self.n_select]
 
-        # `reset_out` is used to flag the
-        reset_out = np.zeros_like(self.u.v)
-        reset_out[top_n] = 1
-        reset_out[bottom_n] = 1
+        # `reset_lower` and `reset_upper` flag the selected candidates on each side
+        reset_lower = np.zeros_like(self.u.v)
+        reset_upper = np.zeros_like(self.u.v)
+        reset_lower[top_n] = 1
+        reset_upper[bottom_n] = 1
 
         # set new flags
-        self.zl[:] = np.logical_or(np.logical_and(reset_out, self.zl),
+        self.zl[:] = np.logical_or(np.logical_and(reset_lower, self.zl),
                                    self.ql)
-        self.zu[:] = np.logical_or(np.logical_and(reset_out, self.zu),
+        self.zu[:] = np.logical_or(np.logical_and(reset_upper, self.zu),
                                    self.qu)
         self.zi[:] = 1 - np.logical_or(self.zl, self.zu)
         self.ql[:] = self.zl
